@@ -358,7 +358,52 @@ def g_pad(rng, n, ctx):
     return out
 
 
+def g_reassembly(rng, n, ctx):
+    """CommHandler._read_hdr/_read_frame over a scripted link: frames, noise, damaged frames, any chunking."""
+    from nxslib.comm import CommHandler
+    from nxslib.proto.parse import Parser
+    out = []
+    sf = ctx.sf
+    for _ in range(n):
+        stream = b""
+        for _ in range(rng.randrange(0, 5)):
+            r = rng.random()
+            fr = sf.frame_create(rng.randrange(0, 9), rb(rng, rng.randrange(0, 9)))
+            if r < 0.15:
+                fr = bytearray(fr)
+                fr[rng.randrange(len(fr))] ^= 1 << rng.randrange(8)
+                fr = bytes(fr)
+            elif r < 0.3:
+                fr = rb(rng, rng.randrange(1, 5)) + fr
+            elif r < 0.4:
+                fr = bytes([0x55] * rng.randrange(1, 3)) + fr
+            stream += fr
+        if rng.random() < 0.2:
+            stream = stream[:rng.randrange(0, len(stream) + 1)]
+        chunks = []
+        i = 0
+        while i < len(stream):
+            k = rng.choice([1, 1, 2, 3, 5, 8, 64])
+            chunks.append(stream[i:i + k])
+            i += k
+            if rng.random() < 0.15:
+                chunks.append(b"")
+        prev = rng.choice([b"", b"", b"\x55", rb(rng, 2)])
+        calls = rng.randrange(1, 8)
+        csx = pyl.RawSx("(o CommHandler (_prev_read %s) (_intf (o ScriptedIntf (chunks %s))) (_parse %s))" % (
+            pyl.sx(prev), pyl.sx(list(chunks)), ctx.pa_sx.text))
+
+        def run(prev, chunks, calls):
+            c = CommHandler(prelude_py.ScriptedIntf(list(chunks)), Parser())
+            c._prev_read = prev
+            return prelude_py.read_frames(c, calls)
+
+        out.append((pyl.fn_cmd("read_frames", [csx, calls], fuel=400), pyl.impl_result(run, prev, chunks, calls), "_read_frame"))
+    return out
+
+
 GROUPS = {
+    "reassembly": g_reassembly,
     "pad": g_pad,
     "frame": g_frame,
     "requests": g_requests,
